@@ -24,7 +24,7 @@ REQUIRED = [
     "DaeVerif.C02.Props.domain_bit_same",
 ]
 
-MUTATING = ("lpm", "lpmdel", "rules", "meta", "dom", "domdel")
+MUTATING = ("lpm", "lpmdel", "rset", "meta", "dom", "domdel")
 
 
 def parse_c_header(path):
@@ -87,62 +87,61 @@ def const_agreement(ctx):
     return len(rows)
 
 
-def glue_tripwire(ctx):
-    """buildRoutingKernspace's map updates cannot be executed without a kernel: the harness mirrors
-    them.  The few expressions the mirror depends on are checked textually so that an edit to the
-    un-executed glue cannot pass silently."""
-    src = open(os.path.join(REPO, "control/routing_matcher_builder.go")).read()
-    m = re.search(r"\nfunc buildRoutingKernspace\(.*?\n}\n", src, re.S)
-    problems = []
-    if not m:
-        problems.append("func buildRoutingKernspace not found")
-    else:
+def reload_callsite_check(ctx):
+    """buildRoutingKernspace, InheritLpmIndices/ReplaceLpmIndices, clearReloadDomainRoutingMap and the
+    whole RebuildReloadDatapath sequence are EXECUTED on real kernel maps by the harness.  Two call sites of
+    clearReloadDomainRoutingMap cannot be executed (CommitPreparedDatapath and NewControlPlane need a
+    network namespace): only the presence of the call in those two functions is checked textually.
+    A function that was renamed or moved is skipped (recorded), not alarmed on."""
+    src = open(os.path.join(REPO, "control/control_plane.go")).read()
+    res = {}
+    for fn in ("CommitPreparedDatapath", "NewControlPlaneWithOptions", "NewControlPlane", "newControlPlane"):
+        m = re.search(r"\nfunc (?:\([^)]*\) )?%s\(.*?\n}\n" % fn, src, re.S)
+        if not m:
+            continue
         body = m.group(0)
-        exprs = set(re.sub(r"\s+", " ", e.strip()) for e in re.findall(r"lpmIndex:\s*(.+?),\n", body))
-        want = {"(allocStartIdx + uint32(idx)) % uint32(consts.MaxMatchSetLen)", "(allocStartIdx + uint32(i)) % uint32(consts.MaxMatchSetLen)"}
-        if exprs != want:
-            problems.append(f"lpmIndex expressions are {sorted(exprs)}, the harness mirrors {sorted(want)}")
-        marks = ["reserveLpmRingSlots(lpmCount)", "cidrToBpfLpmKey(cidr)", "bpf.LpmArrayMap.Update(r.lpmIndex, m, ebpf.UpdateAny)",
-                 "rewriteKernRulesWithRingLpmIndex(rules, allocStartIdx, lpmCount)",
-                 "BpfMapBatchUpdate(bpf.RoutingMap, routingsKeys, kernRules", "bpf.RoutingMetaMap.Update(uint32(0), routingsLen"]
-        pos = [body.rfind(x) if i == 2 else body.find(x) for i, x in enumerate(marks)]
-        if any(p < 0 for p in pos):
-            problems.append("expected call missing: " + ", ".join(x for x, p in zip(marks, pos) if p < 0))
-        elif pos != sorted(pos):
-            problems.append("order of map updates changed (expected: reserve, keys, lpm_array_map, rewrite, routing_map, routing_meta_map)")
-    for pr in problems:
-        ctx.report("buildRoutingKernspace glue (not executable without a kernel) no longer matches what the harness mirrors: " + pr,
-                   {"file": "control/routing_matcher_builder.go", "problem": pr}, no_input=True)
-    ctx.cov["glue_tripwire_ok"] = not problems
+        if "BuildKernspace(" not in body and "replayDnsReloadCache()" not in body:
+            continue
+        res[fn] = "clearReloadDomainRoutingMap(" in body
+    for fn, ok in res.items():
+        if not ok:
+            ctx.report(f"{fn} installs a new routing generation but no longer clears domain_routing_map (clearReloadDomainRoutingMap): "
+                       "addresses keep bitmaps whose bit positions belong to the previous generation's match sets",
+                       {"file": "control/control_plane.go", "function": fn}, no_input=True)
+    ctx.cov["reload_callsites_checked"] = res
 
 
-def ring_invariants(ctx, ops):
-    """Slots of one generation are pairwise distinct; consecutive generations whose sizes add up to
-    at most MAX_MATCH_SET_LEN use disjoint slots (the hot-reload overlap window).  Checked on the
-    slots the real reserveLpmRingSlots handed out, whatever the allocation policy."""
+def ring_invariants(ctx, ops, name):
+    """On the slots found in the REAL lpm_array_map after each reload: every trie of a generation sits in
+    a slot of its own inside the map; consecutive generations whose sizes add up to at most
+    MAX_MATCH_SET_LEN use disjoint slots (the hot-reload overlap window)."""
     gens, cur = [], None
     for i, op in enumerate(ops):
-        t = op.split(" ", 4)
+        t = op.split(" ", 3)
         if t[0] == "reserve":
-            cur = {"line": i + 1, "count": int(t[1]), "start": int(t[2]), "slots": []}
+            cur = {"line": i + 1, "count": int(t[1]), "start": int(t[2]), "slots": [], "done": False}
             gens.append(cur)
-        elif t[0] == "lpm" and cur is not None:
-            cur["slots"].append(int(t[2]))
-    n_pairs = 0
+        elif t[0] == "lpm" and cur is not None and not cur["done"]:
+            cur["slots"].append(int(t[1]))
+        elif t[0] == "instcheck" and cur is not None:
+            cur["done"] = True
+    gens = [g for g in gens if g["done"]]
+    n_pairs = n_overlap = 0
     for g in gens:
-        if len(set(g["slots"])) != len(g["slots"]) or any(s >= 1024 + 8 for s in g["slots"]):
-            ctx.report(f"ring slots of one generation collide or leave lpm_array_map: start={g['start']} count={g['count']}",
-                       {"line": g["line"], "slots": g["slots"]})
+        if len(set(g["slots"])) != g["count"] or any(s >= 1024 + 8 for s in g["slots"]):
+            ctx.report(f"a reload of {g['count']} LPM tries changed {len(set(g['slots']))} slots of lpm_array_map (start={g['start']}): "
+                       "tries share a slot or were not installed", {"stream": name, "line": g["line"], "slots": g["slots"][:50]})
     for a, b in zip(gens, gens[1:]):
+        inter = set(a["slots"]) & set(b["slots"])
         if a["count"] + b["count"] <= 1024:
             n_pairs += 1
-            inter = set(a["slots"]) & set(b["slots"])
             if inter:
                 ctx.report(f"consecutive reloads share LPM slots {sorted(inter)[:5]} although {a['count']}+{b['count']} <= 1024 "
                            f"(old rules would read the new generation's sets during the reload window)",
-                           {"line": b["line"], "prev": a, "cur": b})
-    ctx.cov["ring_generations"] = len(gens)
-    ctx.cov["ring_consecutive_pairs_checked"] = n_pairs
+                           {"stream": name, "line": b["line"], "prev": a, "cur": b})
+        elif inter:
+            n_overlap += 1
+    ctx.cov.setdefault("ring", {})[name] = {"generations": len(gens), "consecutive_pairs_checked": n_pairs, "overlapping_pairs": n_overlap}
 
 
 def expected_k(op_toks, u):
@@ -186,6 +185,8 @@ def run_stream(ctx, name, cdrv):
             except ValueError:
                 line += " UNPARSABLE"
             merged.append(line)
+        elif kind == "kpkt":
+            merged.append(c)
         elif kind == "const":
             merged.append(f"{g}|{c}")
         else:
@@ -201,7 +202,8 @@ def run(ctx):
         "kernel LPM-trie lookup contract (a stored key matches a /128 probe when its first prefixlen bits equal the probe's) — C12.lpmLookup; the native harness implements the kernel's longest-prefix rule independently in C (harness/c/bpf_shim.c)",
         "bpf_loop / array / hash / array-of-maps semantics as implemented by harness/c/bpf_shim.c; verifier acceptance, the 8M iteration cap and per-CPU scratch are not modelled",
         "H2: the bitmap installed in domain_routing_map for the destination equals MatchDomainBitmap(domain) (C10/C11's subject); the harness installs the real MatchDomainBitmap output under the destination address before each packet",
-        "the map UPDATE calls of buildRoutingKernspace / ReplaceLpmIndices / clearReloadDomainRoutingMap need a kernel: their order is mirrored by the harness (reserveLpmRingSlots, cidrToBpfLpmKey, rewriteKernRulesWithRingLpmIndex, Match, MatchDomainBitmap, compileRoutingMatches are the production functions)",
+        "the reload is EXECUTED on real kernel BPF maps (snapshot.BuildKernspace = buildRoutingKernspace, clearReloadDomainRoutingMap, InheritLpmIndices/EjectLpmIndices, RebuildReloadDatapath = BuildKernspace+ReplaceLpmIndices+clear) and the maps are read back; not executed: CommitPreparedDatapath / NewControlPlane themselves (need a netns) — the harness calls their routing steps in the same order, and the presence of their clearReloadDomainRoutingMap call is checked textually",
+        "the maps the harness creates (types, key/value sizes, max_entries) are those declared in tproxy.c — sizes cross-checked by the const ops; the real kernel LPM trie stores the keys, the native route() then runs on the shim's LPM implementation fed with the dumped keys",
         "translators/fakebpf (synthetic bpf2go declarations: bpfMatchSet, bpfPortRange, bpfDomainRouting with the field order of bpf_stub.go)",
         "C01 theorem match_is_first_match and C12 theorem kernel_userspace_same_set (imported, proved in the same lake build)",
         "shim headers harness/c/headers (UAPI types; bpf_ntohs = bswap16 on the little-endian host)",
@@ -233,7 +235,7 @@ def run(ctx):
     for t in th:
         t.start()
     n_consts = const_agreement(ctx)
-    glue_tripwire(ctx)
+    reload_callsite_check(ctx)
     fake = ctx.fake_bpf_overlay()
     binp = None
     if fake:
@@ -257,67 +259,102 @@ def run(ctx):
         return 2
     replay_cmd = "VERIF_SEED=%d ./check C02 %s" % (ctx.seed, ctx.tier)
 
-    # ---- main stream: three-way
-    ops, merged, model, neq = run_stream(ctx, "c02", cdrv)
+    n_const_lines = [0]
+
+    def three_way(name):
+        """C = pack(dnsAdjust(Go)) per packet; both = model per line; dumped kernel maps satisfy Installed."""
+        ops, merged, model, neq = run_stream(ctx, name, cdrv)
+        if not merged:
+            return ops, merged, model
+        mism = ctx.diff_streams(os.path.join(ctx.out, name + ".ops"), os.path.join(ctx.out, name + ".merged"),
+                                os.path.join(ctx.out, name + ".model"), name,
+                                canon=lambda s: "" if s.startswith("=") else ("ok" if s.startswith("ok ring-model-predicted") else s))
+        # const lines: three-way check below; the ring counter's exact policy is not part of the property
+        ring_invariants(ctx, ops, name)
+        ring_dis = [m for m in model if m.startswith("ok ring-model-predicted")]
+        ctx.cov.setdefault("ring_model_disagreements", {})[name] = len(ring_dis)
+        if ring_dis:
+            ctx.say(f"NOTE property=C02 [{name}] reserveLpmRingSlots no longer follows the model's reserveRing on {len(ring_dis)} reloads "
+                    f"(first: {ring_dis[0]}); slot invariants are checked on the slots found in the kernel map")
+        cur = {"prog": None, "tries": None, "reserve": None}
+        ctx_of = {}
+        for i, op in enumerate(ops):
+            k = op.split(" ", 1)[0]
+            if k in cur:
+                cur[k] = op
+            ctx_of[i + 1] = dict(cur)
+        # (1) the property itself on the two implementations: C route() = pack(dnsAdjust(Go Match))
+        for op, line in neq[:10]:
+            i = ops.index(op) + 1
+            ctx.report(f"kernel route() and userspace Match disagree: `{line}` (expected k = pack(dnsAdjust(u)))",
+                       {"stream": name, "line": i, "program": (ctx_of[i]["prog"] or "")[:4000], "tries": (ctx_of[i]["tries"] or "")[:4000],
+                        "op": op, "impl": line, "replay": replay_cmd})
+        # (2) implementations vs the proved model
+        for ln, op, im, mo in mism[:10]:
+            what = "implementation differs from proved model"
+            if op.startswith(("pkt ", "kpkt ")):
+                what = "route()/Match result differs from the proved model (k = kernel C, u = userspace Go)"
+            elif op.startswith("instcheck"):
+                what = ("the kernel maps read back after the real reload (buildRoutingKernspace / InheritLpmIndices / RebuildReloadDatapath on real BPF maps) "
+                        "do not satisfy `Installed` for the typed program: rule images = encodeGo(ring-rewritten entry), every trie at slot (start+i)%1024, active length")
+            elif op.startswith("const "):
+                what = "constant differs between Go and the model"
+            ctx.report(f"{what} at line {ln}: impl `{im[:200]}` model `{mo[:300]}`",
+                       {"stream": name, "line": ln, "op": op[:4000], "impl": im[:4000], "model": mo[:4000],
+                        "program": (ctx_of.get(ln, {}).get("prog") or "")[:4000], "tries": (ctx_of.get(ln, {}).get("tries") or "")[:4000],
+                        "reserve": ctx_of.get(ln, {}).get("reserve"), "replay": replay_cmd})
+        # (3) constants three-way (Go | C | Lean) per const line
+        for op, im, mo in zip(ops, merged, model):
+            if not op.startswith("const "):
+                continue
+            n_const_lines[0] += 1
+            g, c = im.split("|")
+            vals = {v for v in (g[1:], c[1:], mo[1:]) if v not in ("-", "?")}
+            present = [v for v in (g[1:], c[1:], mo[1:]) if v not in ("-", "?")]
+            if len(vals) != 1 or len(present) < 2:
+                ctx.report(f"constant/layout {op[6:]} disagrees: go={g[1:]} c={c[1:]} model={mo[1:]}",
+                           {"const": op[6:], "go": g[1:], "c": c[1:], "model": mo[1:]})
+        for i, mo in enumerate(model):
+            if mo == "bad-op":
+                ctx.report("model driver: bad op (harness-model protocol bug)", {"stream": name, "line": i + 1, "op": ops[i][:2000]})
+                break
+        return ops, merged, model
+
+    ops, merged, model = three_way("c02")
     if not merged:
         return ctx.finish(rule="native driver failed", evaluations=0, distinct=0)
-    mism = ctx.diff_streams(os.path.join(ctx.out, "c02.ops"), os.path.join(ctx.out, "c02.merged"),
-                            os.path.join(ctx.out, "c02.model"), "c02",
-                            canon=lambda s: "" if s.startswith("=") else ("ok" if s.startswith("ok ring-model-predicted") else s))
-    # const lines: three-way check below; the ring counter's exact policy is not part of the property (invariants below)
-    ring_invariants(ctx, ops)
-    ring_dis = [m for m in model if m.startswith("ok ring-model-predicted")]
-    ctx.cov["ring_model_disagreements"] = len(ring_dis)
-    if ring_dis:
-        ctx.say(f"NOTE property=C02 reserveLpmRingSlots no longer follows the model's reserveRing on {len(ring_dis)} reloads "
-                f"(first: {ring_dis[0]}); slot invariants are checked on the observed slots")
-    cur = {"prog": None, "tries": None}
-    ctx_of = {}
-    for i, op in enumerate(ops):
-        k = op.split(" ", 1)[0]
-        if k in cur:
-            cur[k] = op
-        ctx_of[i + 1] = dict(cur)
-    # (1) the property itself on the two implementations: C route() = pack(dnsAdjust(Go Match))
-    for op, line in neq[:10]:
-        i = ops.index(op) + 1
-        ctx.report(f"kernel route() and userspace Match disagree: `{line}` (expected k = pack(dnsAdjust(u)))",
-                   {"stream": "c02", "line": i, "program": (ctx_of[i]["prog"] or "")[:4000], "tries": (ctx_of[i]["tries"] or "")[:4000],
-                    "op": op, "impl": line, "replay": replay_cmd})
-    # (2) implementations vs the proved model (encoders, ring, both matchers, constants)
-    for ln, op, im, mo in mism[:10]:
-        what = "implementation differs from proved model"
-        if op.startswith("pkt "):
-            what = "route()/Match result differs from the proved model (k = kernel C, u = userspace Go)"
-        elif op.startswith(("rules ", "lpm ")):
-            what = "byte image written by the Go encoders differs from the model's encodeGo / cidrToKey / ring rewrite"
-        elif op.startswith("reserve "):
-            what = "ring slot reservation differs from the model"
-        elif op.startswith("const "):
-            what = "constant differs between Go and the model"
-        ctx.report(f"{what} at line {ln}: impl `{im[:200]}` model `{mo[:200]}`",
-                   {"stream": "c02", "line": ln, "op": op[:4000], "impl": im[:4000], "model": mo[:4000],
-                    "program": (ctx_of.get(ln, {}).get("prog") or "")[:4000], "replay": replay_cmd})
-    # (3) constants three-way (Go | C | Lean) per const line
-    n_const_lines = 0
-    for op, im, mo in zip(ops, merged, model):
-        if not op.startswith("const "):
-            continue
-        n_const_lines += 1
-        g, c = im.split("|")
-        vals = {v for v in (g[1:], c[1:], mo[1:]) if v not in ("-", "?")}
-        present = [v for v in (g[1:], c[1:], mo[1:]) if v not in ("-", "?")]
-        if len(vals) != 1 or len(present) < 2:
-            ctx.report(f"constant/layout {op[6:]} disagrees: go={g[1:]} c={c[1:]} model={mo[1:]}",
-                       {"const": op[6:], "go": g[1:], "c": c[1:], "model": mo[1:]})
-    for i, mo in enumerate(model):
-        if mo == "bad-op":
-            ctx.report("model driver: bad op (harness-model protocol bug)", {"line": i + 1, "op": ops[i][:2000]})
-            break
-    # (4) Go-side consistency: compiledRules = compileRoutingMatch(rules) etc.
+    # (4) Go-side consistency and direct observations on the real kernel maps (all streams)
     gv = read_lines(os.path.join(ctx.out, "c02.goviol"))
     for v in gv[:5]:
-        ctx.report("control-plane inconsistency: " + v[:500], {"detail": v[:4000], "replay": replay_cmd})
+        ctx.report("control plane / kernel map inconsistency: " + v[:600], {"detail": v[:4000], "replay": replay_cmd})
+
+    stats = json.load(open(os.path.join(ctx.out, "c02.stats.json")))
+    cnt = stats["counters"]
+
+    # ---- boundary stream: overlapping generations, exactly MAX_MATCH_SET_LEN, MAX_MATCH_SET_LEN + 1
+    bops, bmerged, bmodel = three_way("c02big")
+    bnote = read_lines(os.path.join(ctx.out, "c02big.note"))
+    need = {"big.overlap_generation_installed": 3, "ring.slot_reused_across_generations": 1,
+            "big.exactly_max_installed": 1, "big.over_limit_rejected": 1}
+    missing = {k: cnt.get(k, 0) for k, v in need.items() if cnt.get(k, 0) < v}
+    if missing:
+        ctx.report("boundary stream did not exercise what it is for (overlapping generations of 600 tries, a program of exactly "
+                   f"{1024} match sets accepted, {1025} rejected): {missing}; notes: {bnote}", {"missing": missing, "notes": bnote}, no_input=True)
+    ctx.cov["boundary_stream"] = {"notes": bnote, "packets": sum(1 for o in bops if o.startswith("pkt ")),
+                                  "overlapping_pairs": ctx.cov.get("ring", {}).get("c02big", {}).get("overlapping_pairs")}
+
+    # ---- kernel error paths: native route() vs model on hand-written maps
+    eops, emerged, emodel, _ = run_stream(ctx, "c02err", cdrv)
+    if emerged:
+        em = ctx.diff_streams(os.path.join(ctx.out, "c02err.ops"), os.path.join(ctx.out, "c02err.merged"),
+                              os.path.join(ctx.out, "c02err.model"), "c02err")
+        for ln, op, im, mo in em[:5]:
+            ctx.report(f"kernel error path: native route() differs from the model at line {ln}: C `{im[:100]}` model `{mo[:100]}`",
+                       {"stream": "c02err", "line": ln, "op": op[:2000], "impl": im, "model": mo, "ops_before": eops[max(0, ln - 4):ln - 1]})
+        ek = [m for o, m in zip(eops, emerged) if o.startswith("kpkt ")]
+        ctx.cov["kernel_error_stream"] = {"packets": len(ek), "errors": sum(1 for m in ek if m.startswith("k=-")), "answers": ek}
+        if len(ek) < 10 or not any(m.startswith("k=-") for m in ek) or not any(not m.startswith("k=-") for m in ek):
+            ctx.report("kernel error stream is degenerate: " + str(ek), {"answers": ek}, no_input=True)
 
     # ---- regression replay of former finding #6 (pname('') with an unknown process on WAN; repaired by
     # C02.fix1: the kernel now tests pname[0] != 0 like userspace). A revert must be a violation.
@@ -341,12 +378,11 @@ def run(ctx):
     ctx.cov["empty_pname_replay"] = f6
 
     pk = [(o, m) for o, m in zip(ops, merged) if o.startswith("pkt ")]
-    stats = json.load(open(os.path.join(ctx.out, "c02.stats.json")))
     ctx.samples = stats["samples"][:2] + [o[:400] for o, _ in pk[:3]] + [m for _, m in pk[:3]]
     ctx.cov["input_distribution"] = stats["counters"]
     ctx.cov["distinct_decisions"] = len(collections.Counter(m for _, m in pk))
     ctx.cov["programs_installed"] = stats["counters"].get("prog.installed", 0)
-    ctx.cov["const_lines_three_way"] = n_const_lines
+    ctx.cov["const_lines_three_way"] = n_const_lines[0]
     ctx.cov["kernel_errors"] = sum(1 for _, m in pk if m.startswith("k=-"))
     ctx.assumptions = [
         "packets, programs and reload sequences are generated (seeded): what was not generated was not compared",
